@@ -1,14 +1,162 @@
-(* Proofs for property C10. *)
-From Coq Require Import Lia ZifyBool.
-From BT Require Import Base.ListX Base.Bits2 AttDb.AttDbModel NQueue.NQueueModel AttSrv.AttSrvModel AttSrv.AttSrvNotifSpec.
+(* Proofs for property C10 (notifications carry the requested characteristic to subscribed clients only). *)
+From Coq Require Import Lia ZifyBool Permutation.
+From BT Require Import Base.ListX Base.Bits2 AttDb.AttDbModel AttDb.AttDbNotifProofs NQueue.NQueueModel AttSrv.AttSrvModel
+  AttSrv.AttSrvSpecC01 AttSrv.AttSrvProofsC01 AttSrv.AttSrvFrame.
 Local Open Scope N_scope.
 
-(* a Handle Value Confirmation with a wrong length leaves the state unchanged *)
-Lemma confirmation_bad_length_unchanged c st cid pdu b n st' r :
-  handle_confirmation c st cid pdu b n = Some (st', r) -> len pdu <> 1 -> st' = st.
+(* ------------------------------------------------------------------ which index a request queues *)
+Definition gci_is (g : nat) (x : cinfo) : bool := Nat.eqb (ci_gci x) g.
+
+Lemma index_of_gci_first g : forall l x rest,
+  filter (gci_is g) l = x :: rest -> nth_error l (N.to_nat (index_of_gci g l)) = Some x.
 Proof.
-  unfold handle_confirmation. destruct (rd pdu 0); [|discriminate].
-  destruct (negb (len pdu =? 1)) eqn:E.
-  - destruct (error_response _ _ _ _ _); [|discriminate]. intros [= <- _]. reflexivity.
-  - intros _ L. apply negb_false_iff, N.eqb_eq in E. contradiction.
+  induction l as [|a t IH]; intros x rest H; cbn [filter index_of_gci] in *; [discriminate|].
+  unfold gci_is in H at 1. destruct (Nat.eqb (ci_gci a) g) eqn:E.
+  - inv H. reflexivity.
+  - replace (N.to_nat (1 + index_of_gci g t)) with (S (N.to_nat (index_of_gci g t))) by lia. cbn [nth_error]. eapply IH; eauto.
+Qed.
+
+Lemma filter_head_in (A : Type) (f : A -> bool) l x rest : filter f l = x :: rest -> In x l /\ f x = true.
+Proof. intros H. assert (I : In x (filter f l)) by (rewrite H; left; reflexivity). apply filter_In in I. exact I. Qed.
+
+(* notify( value ) / indicate( value ): the queued index is the position of that characteristic in the priority
+   SORTED list, i.e. what find_notification_data_by_index maps back to the same attribute *)
+Theorem by_value_addresses_sorted_index c g d :
+  find_notification_data c g = Some d ->
+  find_notification_data_by_index c (snd d) = d
+  /\ exists x, nth_error (sorted_infos c) (N.to_nat (snd d)) = Some x /\ ci_gci x = g /\ fst d = ci_first x + 1.
+Proof.
+  unfold find_notification_data. change (fun x : cinfo => Nat.eqb (ci_gci x) g) with (gci_is g).
+  destruct (filter (gci_is g) (sorted_infos c)) as [|x rest] eqn:F; [discriminate|].
+  destruct (c_value (ci_char x)); try discriminate. intros H. inv H. cbn [fst snd].
+  pose proof (index_of_gci_first _ _ _ _ F) as Nx.
+  destruct (filter_head_in _ _ _ _ _ F) as (_ & Gx). apply Nat.eqb_eq in Gx.
+  split.
+  - unfold find_notification_data_by_index. rewrite Nx. reflexivity.
+  - exists x. auto.
+Qed.
+
+(* ------------------------------------------------------------------ the sorted list and the declaration list *)
+(* global characteristic numbers are 0, 1, 2, ... in declaration order *)
+Lemma chars_infos_gci c s : forall cs gci off le, map ci_gci (chars_infos c s cs gci off le) = seq gci (length cs).
+Proof. induction cs as [|ch t IH]; intros; cbn [chars_infos map length seq]; auto. rewrite IH. reflexivity. Qed.
+
+Lemma chars_infos_length c s : forall cs gci off le, length (chars_infos c s cs gci off le) = length cs.
+Proof. induction cs as [|ch t IH]; intros; cbn [chars_infos length]; auto. Qed.
+
+Lemma svcs_infos_gci c : forall ss gci le, map ci_gci (svcs_infos c ss gci le) = seq gci (length (svcs_infos c ss gci le)).
+Proof.
+  induction ss as [|s t IH]; intros; cbn [svcs_infos map length seq]; auto.
+  rewrite map_app, app_length, seq_app, chars_infos_gci, IH, chars_infos_length. reflexivity.
+Qed.
+
+Lemma all_infos_gci_nodup c : NoDup (map ci_gci (all_infos c)).
+Proof. unfold all_infos. rewrite svcs_infos_gci. apply seq_NoDup. Qed.
+
+(* an element of the sorted list is an element of the declaration list with another ci_pos *)
+Lemma number_from_in l : forall n y, In y (number_from set_pos l n) -> exists x p, In x l /\ y = set_pos x p.
+Proof.
+  induction l as [|a t IH]; intros n y H; cbn [number_from] in H; [destruct H|].
+  destruct H as [H|H]; [exists a, n; split; [left; reflexivity|auto]|].
+  destruct (IH _ _ H) as (x & p & I & E). exists x, p. split; [right; auto|auto].
+Qed.
+
+Lemma sorted_in_all c y : In y (sorted_infos c) -> exists x p, In x (all_infos c) /\ has_cccd (ci_char x) = true /\ y = set_pos x p.
+Proof.
+  intros H. apply (Permutation_in _ (sorted_infos_perm c)) in H. unfold cccd_infos in H.
+  change (fun (x : cinfo) (n : N) => _) with set_pos in H.
+  destruct (number_from_in _ _ _ H) as (x & p & I & E). apply filter_In in I. destruct I as (I & C).
+  exists x, p. auto.
+Qed.
+
+Lemma in_map_nodup_eq (A B : Type) (f : A -> B) l x y : NoDup (map f l) -> In x l -> In y l -> f x = f y -> x = y.
+Proof.
+  induction l as [|a t IH]; intros ND Ix Iy E; [destruct Ix|]. cbn [map] in ND. inversion ND as [|? ? Na ND']; subst.
+  destruct Ix as [->|Ix], Iy as [->|Iy]; auto.
+  - exfalso. apply Na. rewrite E. apply in_map. auto.
+  - exfalso. apply Na. rewrite <- E. apply in_map. auto.
+Qed.
+
+(* notify< UUID >() / indicate< UUID >(): the same, for the first characteristic with that uuid *)
+Theorem by_uuid_addresses_sorted_index c u d :
+  find_notification_by_uuid c u = Some d ->
+  exists x0, find_char_by_uuid c u = Some x0
+    /\ find_notification_data_by_index c (snd d) = d
+    /\ exists x, nth_error (sorted_infos c) (N.to_nat (snd d)) = Some x /\ ci_gci x = ci_gci x0 /\ fst d = ci_first x + 1.
+Proof.
+  unfold find_notification_by_uuid. destruct (find_char_by_uuid c u) as [x0|] eqn:F; [|discriminate].
+  destruct (has_cccd (ci_char x0)) eqn:C; [|discriminate]. intros H. inv H. cbn [fst snd].
+  exists x0. split; auto.
+  (* x0 is in the declaration list; its image is in the sorted list *)
+  assert (I0 : In x0 (all_infos c)).
+  { unfold find_char_by_uuid in F. destruct (filter _ (all_infos c)) as [|y r] eqn:E; [discriminate|]. inv F.
+    apply filter_head_in in E. tauto. }
+  assert (exists y, In y (sorted_infos c) /\ ci_gci y = ci_gci x0) as (y & Iy & Gy).
+  { assert (In x0 (filter (fun x => has_cccd (ci_char x)) (all_infos c))) by (apply filter_In; auto).
+    assert (exists y, In y (cccd_infos c) /\ ci_gci y = ci_gci x0) as (y & Iy & Gy).
+    { unfold cccd_infos. change (fun (x : cinfo) (n : N) => _) with set_pos.
+      generalize 0. induction (filter _ (all_infos c)) as [|a t IH]; intros n; [destruct H|].
+      destruct H as [->|H]; cbn [number_from].
+      - eexists. split; [left; reflexivity|reflexivity].
+      - destruct (IH H (n + 1)) as (y & Iy & Gy). exists y. split; [right; auto|auto]. }
+    exists y. split; auto. apply (Permutation_in _ (Permutation_sym (sorted_infos_perm c))). auto. }
+  destruct (filter (gci_is (ci_gci x0)) (sorted_infos c)) as [|x rest] eqn:Fs.
+  { exfalso. assert (In y (filter (gci_is (ci_gci x0)) (sorted_infos c))) by (apply filter_In; split; auto; unfold gci_is; apply Nat.eqb_eq; auto).
+    rewrite Fs in H. destruct H. }
+  pose proof (index_of_gci_first _ _ _ _ Fs) as Nx.
+  destruct (filter_head_in _ _ _ _ _ Fs) as (Ix & Gx). apply Nat.eqb_eq in Gx.
+  (* x is x0 up to ci_pos *)
+  destruct (sorted_in_all c x Ix) as (x1 & p & I1 & _ & ->). cbn [set_pos ci_gci] in Gx.
+  assert (x1 = x0) by (eapply in_map_nodup_eq; eauto using all_infos_gci_nodup). subst x1.
+  split.
+  - unfold find_notification_data_by_index. rewrite Nx. reflexivity.
+  - eexists. split; [exact Nx|]. split; reflexivity.
+Qed.
+
+Lemma put_put_take b l b1 x y z b2 :
+  put b 3 l = Some b1 -> put b1 0 [x; y; z] = Some b2 -> takeN (3 + len l) b2 = x :: y :: z :: l.
+Proof.
+  unfold put. destruct (3 + len l <=? len b) eqn:E1; [|discriminate]. intros H1. apply f_some_inj in H1. subst b1.
+  destruct (0 + len [x; y; z] <=? _) eqn:E2; [|discriminate]. intros H2. apply f_some_inj in H2. subst b2.
+  apply N.leb_le in E1. unfold len in E1. clear E2.
+  unfold takeN, dropN, len.
+  replace (N.to_nat 0) with 0%nat by reflexivity. replace (N.to_nat 3) with 3%nat by reflexivity.
+  replace (N.to_nat (0 + N.of_nat (length [x; y; z]))) with 3%nat by (cbn [length]; lia).
+  replace (N.to_nat (3 + N.of_nat (length l))) with (3 + length l)%nat by lia.
+  cbn [firstn app].
+  assert (L3 : length (firstn 3 b) = 3%nat) by (rewrite firstn_length; lia).
+  rewrite skipn_app, L3. replace (3 - 3)%nat with 0%nat by lia. rewrite skipn_all2 by lia. cbn [skipn app].
+  cbn [firstn Nat.add]. f_equal; f_equal; f_equal.
+  rewrite firstn_app, firstn_all. replace (length l - length l)%nat with O by lia. cbn [firstn]. apply app_nil_r.
+Qed.
+
+(* ------------------------------------------------------------------ what l2cap_output transmits *)
+(* for the queue entry (kd, i): a PDU is produced only if the CCCD bits at store position i (the position
+   the CCCD attribute of the i-th characteristic of the sorted list uses: C09) contain the bit of kd; the PDU
+   is opcode, the handle of the attribute find_notification_data_by_index( i ) names, and the bytes
+   attribute.access( read ) returns for it now (clipped to min( buffer, negotiated MTU ) - 3) *)
+Theorem att_output_pdu c st cid n st' rs k q1 kd i :
+  get_conn st cid = Some k ->
+  NQueueModel.step (nq k) Dequeue = (q1, OEntry (Some (kd, i))) ->
+  att_output c st cid n = Some (st', rs) -> rs <> [] ->
+  let ai := fst (find_notification_data_by_index c (N.of_nat i)) in
+  negb (N.land (cccd_get (cccd k) (N.of_nat i)) (kbit kd) =? 0) = true
+  /\ exists a s1 d,
+       attribute_at c ai = Some a
+       /\ access_read c (set_conn st cid (mkConn (client_mtu k) (cccd k) (encrypted k) (pairing k) q1)) cid a ai 0
+                      (N.min n (negotiated_mtu c k) - 3) = Some (s1, Success, d)
+       /\ rs = (match kd with KNotif => 27 | KInd => 29 end) :: le16 (handle_by_index c ai) ++ d.
+Proof.
+  intros G D. unfold att_output. rewrite G. unfold nq_step at 1. rewrite D.
+  pose proof (find_notification_data_by_index_snd c (N.of_nat i)) as Sn.
+  destruct (find_notification_data_by_index c (N.of_nat i)) as [ai ci]. cbn [snd fst] in *. subst ci.
+  cbn [cccd].
+  replace (match kd with KNotif => 1 | KInd => 2 end) with (kbit kd) by (destruct kd; reflexivity).
+  destruct (negb (N.land (cccd_get (cccd k) (N.of_nat i)) (kbit kd) =? 0)) eqn:B; cbn [andb].
+  2:{ intros H. inv H. intros X. contradiction. }
+  destruct (3 <=? N.min n (negotiated_mtu c k)) eqn:L3; [|intros H; inv H; intros X; contradiction].
+  intros H Hr. split; auto. mon.
+  match goal with H : match ?rc with Success => _ | _ => _ end = Some _ |- _ => destruct rc end; mon; try contradiction.
+  eexists _, _, _. split; [reflexivity|]. split; [eassumption|].
+  unfold le16 in *. eapply put_put_take; eauto.
 Qed.
